@@ -20,9 +20,12 @@ import (
 
 var gNames = []string{"p", "q", "right", "resource", "operation", "owner", "a", "b1", "can_read", "x:y", "zZ_9", "fact", "user", "time",
 	// names that begin with a word of the expression language (they are ordinary names)
+	"role", "tenant", "namespace", "team", "service", "admin", "email", "group", "member", "ip_address", "client", "client_ip", "domain", "path", "version", "cluster", "node", "hostname", "nonce", "query", "read", "write",
 	"union_member", "intersection_of", "starts_with_a", "ends_with_z", "or_else", "allow_list", "check_in", "not_before", "in_group"}
-var gVars = []string{"x", "y", "0", "1", "var1", "file", "true", "resource", "A_b:c"}
-var gStrings = []string{"", "a", "read", "/a/file1.txt", "hello world", "é日本", "a//b", "x;y", "check if", "$x", "{p}", "1 < 2", "[1,2]", "tab\there", "#sym", "hex:41", "2006-01-02T15:04:05Z", "true", "42", "100%", "50%off", "/my%20files", "%s%d%v", "%",
+var gVars = []string{"x", "y", "0", "1", "var1", "file", "true", "resource", "A_b:c",
+	// every name of the default symbol table is an ordinary variable name (and predicate name, and string)
+	"read", "write", "operation", "right", "time", "role", "owner", "tenant", "namespace", "user", "team", "service", "admin", "email", "group", "member", "ip_address", "client", "client_ip", "domain", "path", "version", "cluster", "node", "hostname", "nonce", "query"}
+var gStrings = []string{"", "a", "read", "/a/file1.txt", "hello world", "é日本", "a//b", "x;y", "check if", "$x", "{p}", "1 < 2", "[1,2]", "tab\there", "line\nbreak", "\n", "cr\rlf\r\n", "ip_address", "query", "nonce", "#sym", "hex:41", "2006-01-02T15:04:05Z", "true", "42", "100%", "50%off", "/my%20files", "%s%d%v", "%",
 	// strings whose content is an operator, a bracket or a keyword of the grammar
 	"!", "(", ")", "==", "&&", "||", "+", "-", "*", "/", ".", ",", "<-", "[", "]", "length", "contains", "allow if", "or", "<", ">="}
 var gParams = []string{"p", "param1", "a:b", "X", "9"}
